@@ -1,9 +1,9 @@
 #!/bin/bash
 # usage: run_all.sh [quick|thorough] [ids...]  -- runs checks sequentially, prints a summary
-tier=${1:-quick}; shift
+cd "$(dirname "$(readlink -f "$0")")"; tier=${1:-quick}; shift
 ids="$@"
-[ -z "$ids" ] && ids=$(python3 -c "import json;print(' '.join(c['property_id'] for c in json.load(open('/verif/MANIFEST.json'))['checks']))")
-cd /verif
+[ -z "$ids" ] && ids=$(python3 -c "import json;print(' '.join(c['property_id'] for c in json.load(open('MANIFEST.json'))['checks']))")
+cd "$(dirname "$(readlink -f "$0")")"
 for id in $ids; do
   s=$(date +%s)
   out=$(./check $id --tier $tier 2>&1); rc=$?
